@@ -103,6 +103,23 @@ pub fn run(rep: &mut Report) {
         let lim = if thorough { Limits::new(12, 40_000, (1500.0 / n).max(20.0)) } else { Limits::new(8, 1_500, 4.0) };
         run_cfg::<u16>(rep, cfg, lim, false);
     }
+    // deep session histories with peer-chosen limits that shrink between connections (no raw stimuli): the
+    // panic / wrap oracle along resumed sessions, where a peer-controlled CONNACK / CONNECT value meets
+    // counters carried over from the session (closes in well under a second)
+    for role in [RoleK::Client, RoleK::Server] {
+        let mut c = EpCfg::new(&cfg_name("c05", role, Some(Ver::V5), "session-limits"), role, Some(Ver::V5));
+        c.auto_pub = true;
+        c.window = 3;
+        c.alph = crate::props::epc::session_alph(true, 3);
+        c.alph.pub_q = vec![1, 2];
+        c.alph.peer_pub_q = vec![1, 2];
+        c.alph.peer_ids = vec![1, 2];
+        c.alph.peer_acks.push(AckKind::Pubrel);
+        c.connects = vec![ConnProf::basic(false), ConnProf { rm: Some(1), tam: Some(1), ..ConnProf::basic(false) }, ConnProf { rm: Some(2), mps: Some(9), ..ConnProf::basic(false) }];
+        c.connacks = vec![AckProf::basic(true), AckProf { rm: Some(1), tam: Some(1), ..AckProf::basic(true) }, AckProf { rm: Some(2), mps: Some(9), ..AckProf::basic(true) }];
+        c.groups = vec!["c05"];
+        run_cfg::<u16>(rep, c, if thorough { Limits::new(200, 2_000_000, 300.0) } else { Limits::new(200, 120_000, 8.0) }, false);
+    }
     // u32 identifiers: one client and one server configuration
     for (role, ver) in [(RoleK::Client, Ver::V5), (RoleK::Server, Ver::V4)] {
         let mut c = EpCfg::new(&cfg_name("c05-u32", role, Some(ver), "flags=00011"), role, Some(ver));
